@@ -435,8 +435,8 @@ PROPS["C20"] = dict(
                "exhaustively on all patterns up to length 4 (quick) / 6 (thorough).",
     level_note="Trusted: Lean kernel + standard axioms; the tie is differential (random vectors up to length 10 with <= 6 undecided; the exhaustive small-scope runs are tests, labelled as such).",
     technique="Lean 4 proof (odometer = reference enumeration, by induction) + correspondence check",
-    jobs=[Job("iter", 1500, 20000, size=10, relevant=heads("it2", "it3"), nontrivial=lambda st: int(st.get("undecided", 0)) >= 1),
-          Job("iter", 1, 1, size=104, size_thorough=106, relevant=heads("it2", "it3"),
+    jobs=[Job("iter", 1500, 20000, size=10, relevant=heads("it2", "it3", "itp2", "itp3", "itc2", "itc3"), nontrivial=lambda st: int(st.get("undecided", 0)) >= 1),
+          Job("iter", 1, 1, size=104, size_thorough=106, relevant=heads("it2", "it3", "itp2", "itp3", "itc2", "itc3"),
               nontrivial=lambda st: int(st.get("undecided", 0)) >= 1, label="iter-exhaustive")],
     rule="random vectors (length 0-10, <= 6 undecided, handles 0/1/other) and every decided/undecided pattern up to length 4 (thorough: 6); the full yielded sequence is compared with the model, and "
          "count / Nodup / completeness / first element with the reference enumeration; non-trivial = distinct vector with >= 1 undecided position",
